@@ -204,7 +204,9 @@ func kfDuration(args []KeyBuilderStage) (KeyBuilderStage, error) {
 			return ErrorParsing
 		}
 
-		return strconv.FormatInt(int64(duration.Seconds()), 10)
+		// Whole seconds, truncated toward zero in integer arithmetic (the float64 of duration.Seconds() rounds
+		// eg. 16777216.999999999s up to 16777217)
+		return strconv.FormatInt(int64(duration/time.Second), 10)
 	}), nil
 }
 
